@@ -103,7 +103,25 @@ def run(run):
                 count = [f for f in fs if not is_scale(f) and not is_cell(f)]
                 ok = len(fs) == 3 and len([f for f in fs if is_scale(f)]) == 1 and len([f for f in fs if is_cell(f)]) == 1 and len(count) == 1
                 detail = ""
+                alt_form = False
                 if ok:
+                    # `match self.bounds() { Some((_, br)) => br.x + 2, None => 2 }`: the two arms are {2, max + 2}
+                    c0 = uncast(count[0])
+                    if c0[0] == "phi" and len(c0[1]) == 2:
+                        alts = [uncast(a) for a in c0[1]]
+                        consts = [a for a in alts if is_const(a, 2)]
+                        others = [a for a in alts if not is_const(a)]
+                        if len(consts) == 1 and len(others) == 1:
+                            ts0 = [strip(t) for t in terms(others[0])]
+                            two0 = [t for t in ts0 if is_const(t, 2)]
+                            rest0 = [t for t in ts0 if not is_const(t)]
+                            if len(ts0) == 2 and len(two0) == 1 and len(rest0) == 1:
+                                r0 = rest0[0]
+                                alt_form = r0[0] == "field" and tuple(r0[2])[-2:] == ("1", coord) and "@Some" in r0[2] and \
+                                    strip(r0[1])[0] == "call" and strip(r0[1])[1] == bd and strip(strip(r0[1])[2][0]) == ("param", 1, ())
+                if ok and alt_form:
+                    pass
+                elif ok:
                     c = uncast(count[0])
                     ts = [strip(t) for t in terms(c)]
                     two = [t for t in ts if is_const(t, 2)]
